@@ -45,7 +45,8 @@ def _types(dim):
 def _templates(et, dim, tier, beam=False):
     th = tier == "thorough"
     if dim == 1:
-        return ["n2", "n3g", "n1"] + (["gmsh"] if beam else [])
+        # "welded": two collinear members meshed by Mesh_Beams (each keeps its own joint node) and tied by add_connection_fixed
+        return ["n2", "n3g", "n1"] + (["gmsh", "welded"] if beam else [])
     if isinstance(et, (list, tuple)):
         return ["t2", "two", "dist2"] if dim == 2 else ["conf2", "conf1"]
     t = Z.topo(et)
@@ -570,17 +571,26 @@ def _run_beam(case):
     sink = io.StringIO()
     with contextlib.redirect_stdout(sink):
         section = Mesher().Mesh_2D(Domain(Point(-BEAM_B / 2, -BEAM_H / 2), Point(BEAM_B / 2, BEAM_H / 2), BEAM_H))
-        nel = {"n1": 1, "n2": 2, "n3g": 3, "gmsh": 3}[case["mesh"]]
+        nel = {"n1": 1, "n2": 2, "n3g": 3, "gmsh": 3, "welded": 2}[case["mesh"]]
         L = float(np.linalg.norm(p2 - p1))
         beam = Models.Beam.Isotropic(dim, Line(Point(*p1), Point(*p2), L / nel), section, BEAM_E, BEAM_V, yAxis=tuple(yAxis))
-        if case["mesh"] == "gmsh":
+        welded = case["mesh"] == "welded"
+        beams = [beam]
+        if welded:
+            pm = p1 + 0.4 * (p2 - p1)
+            beams = [Models.Beam.Isotropic(dim, Line(Point(*a), Point(*b), float(np.linalg.norm(b - a)) / nel), section, BEAM_E, BEAM_V, yAxis=tuple(yAxis))
+                     for a, b in ((p1, pm), (pm, p2))]
+            beam = beams[0]
+            lib = Mesher().Mesh_Beams(beams, ElemType[et])
+            zm = Z.zoo_from_mesh(lib, {"measure": L, "dim": 1}, name=f"weldedBeams[{et}]")
+        elif case["mesh"] == "gmsh":
             lib = Mesher().Mesh_Beams([beam], ElemType[et])
             zm = Z.zoo_from_mesh(lib, {"measure": L, "dim": 1}, name=f"gmshBeam[{et}]")
         else:
             lib = None
             zm, _ = _template(case, 1)
             zm = zm.mapped(A, b0)
-        perm = _perm(case["numbering"], zm.Nn)
+        perm = _perm(case["numbering"], zm.Nn) if not welded else None  # (the two members are told apart by the mesher's tags)
         if perm is not None:
             zm = zm.renumbered(perm)
             lib = None
@@ -588,7 +598,7 @@ def _run_beam(case):
             lib = zm.build()
             for g in lib.Get_list_groupElem():
                 g.Set_Tag(np.arange(zm.Nn), beam.name)
-        simu = Simulations.Beam(lib, Models.Beam.BeamStructure([beam]), useTimoshenko=timo)
+        simu = Simulations.Beam(lib, Models.Beam.BeamStructure(beams), useTimoshenko=timo)
     mesh = simu.mesh
     X = zm.coords
     Nn, Ne = zm.Nn, sum(c.shape[0] for c in zm.groups.values())
@@ -602,6 +612,13 @@ def _run_beam(case):
         if abs(got[nm] - sec[nm]) > 1e-9 * sec[nm]:
             v.append(viol("section_constant", f"{nm} of the {BEAM_B} x {BEAM_H} rectangle: model {got[nm]!r}, exact {sec[nm]!r}", **key))
     ends = R.ends_1d(zm)
+    joint = None
+    if welded:
+        dist = lambda q: np.linalg.norm(X - q, axis=1)
+        ends = np.where((dist(p1) < 1e-9 * L) | (dist(p2) < 1e-9 * L))[0]
+        joint = np.where(dist(pm) < 1e-9 * L)[0]
+        if ends.size != 2 or joint.size != 2:
+            raise AssertionError(f"harness: welded beam mesh has {ends.size} end nodes and {joint.size} joint nodes")
     inn = np.setdiff1d(np.arange(Nn), ends)
     unknowns = simu.Get_unknowns()
     expect_unknowns = {1: ["x"], 2: ["x", "y", "rz"], 3: ["x", "y", "z", "rx", "ry", "rz"]}[dim]
@@ -616,6 +633,8 @@ def _run_beam(case):
         simu.Bc_Init()
         funs = [_beam_fun(field, p1, ijk, dim, d) for d in range(nd)] if case["bcform"] == "function" else None
         ntrans += _prescribe(simu, ends, X, full, unknowns, case["bcform"], funs)
+        if joint is not None:
+            simu.add_connection_fixed(joint)
         u = np.asarray(simu.Solve(), dtype=float)
         ntrans += 1
         if u.shape != (Nn * nd,):
